@@ -95,7 +95,7 @@ def register(db):
         raises={}, returns="str", modifies=["ns_map"],
         loops=[Loop(invariants=["len(prefix) > 0"], header="prefix in ns_map")],
         note="termination of the free-prefix search is not proved (pigeonhole over the finite map)",
-        properties=["C03"],
+        properties=["C03", "C05"],  # C05: QNameConverter.serialize allocates the prefix of a QName value through load_prefix
     ))
     db.add(Contract(
         "xsdata.utils.namespaces:load_prefix",
@@ -109,7 +109,7 @@ def register(db):
         raises={}, returns="str|None", modifies=["ns_map"],
         loops=[Loop(invariants=["forall('int', lambda j: implies(0 <= j and j < _i, val_at(ns_map, j) != uri))"],
                     header="ns_map.items()")],
-        properties=["C03"],
+        properties=["C03", "C05"],
     ))
 
     # is_ncname: see c_scanners.py (array-encoded strings)
